@@ -1,5 +1,4 @@
-"""Per-property configuration of the checks: which ties run, how many cases, what counts as
-non-trivial, what is trusted. The theorems are read from coq/theories/Props/Cxx.v."""
+"""C08: calculateTime."""
 
 
 def _c08_nontrivial(case, obs):
@@ -21,8 +20,7 @@ def _c08_stat(case, obs):
     return ks
 
 
-PROPS = {
-    "C08": {
+SPEC = {
         "ties": [{
             "name": "calculateTime", "group": "hsearch", "key": "C08",
             "n_quick": 200000, "n_thorough": 5000000, "min_per_shard": 20000,
@@ -32,5 +30,4 @@ PROPS = {
                 "(both colours, plies 0..699, values up to 2^40 ms); a case is non-trivial when the mover's clock "
                 "or movetime is positive (a premise of the property applies); distinct = distinct input tuples",
         "assumptions": ["inputs below 2^40 ms (the no-overflow lemma's range); Go int is 64 bit"],
-    },
-}
+    }
